@@ -270,9 +270,26 @@ pub fn run(rep: &mut Report) {
             let mut f = [0u64; 7];
             for (j, slot) in f.iter_mut().enumerate() {
                 let k = i.wrapping_mul(7).wrapping_add(j as u64);
-                *slot = if (i + j as u64) % 8 == 0 { lattice::scan_point(k, j % 6, 0, u64::MAX as i128) as u64 } else { lattice::scan_point(k, j % 6, 0, 5000) as u64 };
+                // each field up to ten times the count at which it carries into the next one (5000 days), so that the residues of
+                // several un-normalised fields add up in every way
+                const TOP: [i128; 7] = [5000, 240, 600, 600, 10_000, 10_000_000, 10_000_000_000];
+                *slot = if (i + j as u64) % 8 == 0 { lattice::scan_point(k, j % 6, 0, u64::MAX as i128) as u64 } else { lattice::scan_point(k, j % 6, 0, TOP[j]) as u64 };
             }
             j_compose([-1i8, 1, 0, i8::MIN, i8::MAX, -1, 1, 1][(i % 8) as usize], f, out)
+        });
+        // every whole number of centuries of the range (and its neighbours) through the count constructors, the readers and
+        // the integer-count-of-a-unit forms: a split of the count that is estimated (float, shift, table) instead of divided
+        // goes wrong on a scattered subset of whole centuries, not at the ends of the range
+        sweep(rep, "c02.every_century", 65_537 * 16, |i, out| {
+            let k = (i / 16) as i128 - 32_768;
+            match i % 16 {
+                0..=4 => j_from_total((k * NPC + [0i128, -1, 1, 999_999, -999_999][(i % 16) as usize]).clamp(DMIN, DMAX), out),
+                5..=7 => j_total((k * NPC + [0i128, -1, 1][(i % 16 - 5) as usize]).clamp(DMIN, DMAX), out),
+                8 => j_try_trunc((k * NPC).clamp(DMIN, DMAX), out),
+                9..=11 => j_unit((i % 16 - 9) as usize, k as i64, Unit::Century, out),
+                12..=14 => j_unit((i % 16 - 12) as usize, k as i64 * 36_525, Unit::Day, out),
+                _ => j_unit(0, k as i64 * 3_155_760_000, Unit::Second, out),
+            }
         });
         sweep(rep, "c02.scan_std", nsc / 2, |i, out| j_std(if i % 4 == 0 { lattice::scan_point(i, 0, 0, u64::MAX as i128) as u64 } else { lattice::scan_point(i, 1, 0, 400_000_000_000) as u64 }, lattice::scan_point(i, 2, 0, 999_999_999) as u32, out));
     }
